@@ -97,7 +97,7 @@ pub open spec fn comparable<T: PartialOrd>() -> bool {
 //@freefn src/quantile.rs ci ret r
 //@subst "data.into_iter().copied().collect()" => "copied_collect(data)"
 //@closure 0| (&T, &T) -> Ordering | ensures Some(r__) == $0.partial_cmp_spec($1)
-//@at "ci_sorted_unchecked"| proof { assert(sorted_sample(sorted@, data@)); } // ghost: names the witness of the postcondition's `exists`
+//@at "ci_sorted_unchecked"| proof { assert(sorted_sample($mut0@, data@)); } // ghost: names the witness of the postcondition's `exists`
 //@| requires conf_valid(confidence), comparable::<T>(),
 //@| ensures exists|s: Seq<T>| #[trigger] sorted_sample(s, data@) && quantile_ci_of(confidence, s, quantile, r),
 // fixed-capacity variant: ArrayVec<T, CAP> is MODELLED by Vec<T> under the documented capacity precondition (collect panics beyond CAP)
@@ -106,6 +106,6 @@ pub open spec fn comparable<T: PartialOrd>() -> bool {
 //@subst "ArrayVec<T, CAP>" => "Vec<T>"
 //@subst "data.into_iter().copied().collect()" => "copied_collect(data)"
 //@closure 0| (&T, &T) -> Ordering | ensures Some(r__) == $0.partial_cmp_spec($1)
-//@at "ci_sorted_unchecked"| proof { assert(sorted_sample(sorted@, data@)); } // ghost: names the witness of the postcondition's `exists`
+//@at "ci_sorted_unchecked"| proof { assert(sorted_sample($mut0@, data@)); } // ghost: names the witness of the postcondition's `exists`
 //@| requires conf_valid(confidence), comparable::<T>(), data.len() <= CAP,
 //@| ensures exists|s: Seq<T>| #[trigger] sorted_sample(s, data@) && quantile_ci_of(confidence, s, quantile, r),
